@@ -105,6 +105,19 @@ def job_callgraph(ctx, jr):
 
 
 def replayer(v):
+    if v.get('kind') in ('c01_lemma', 'c01_arglist'):
+        from .c01 import replayer as c01_replayer
+        return c01_replayer(v)
+    if v.get('kind') == 'lemma':
+        # confirmation: values outside the six listed classes (blanks, backslashes, tabs inside, empty, the lemma's own values) must reach
+        # the wrapped command unchanged natively
+        panel = [['a b'], ['a\\b'], ['x'], ['a\tb'], [''], ['a  b'], ['\\'], ['a\\ b'], ['a', 'b c'], ['a b', ''], ['\\\\'], ['it\'s'], ['a=b'], ['a:b', '!x']]
+        mine = [x for x in (v.get('values') or []) if not any(ch in x for ch in '\r\n#"') and '${' not in x and '%{' not in x and '\\$' not in x and '\\%' not in x and not x.startswith('=') and x == x.rstrip('\t\x0b\x0c\u00a0')]
+        if mine: panel.insert(0, mine)
+        for vals_ in panel:
+            got = replayer(dict(kind='c09', values=vals_, env={}))
+            if got[0]: v['native'] = got; return (True, 'values %r: %s' % (vals_, got[1]))
+        return (False, 'values outside the listed classes reach the wrapped command unchanged natively')
     vals = v['values']
     vars_ = {'v%d' % i: x for i, x in enumerate(vals)}; vars_.update(v.get('env', {}))
     args = ' '.join('${v%d}' % i for i in range(len(vals)))
@@ -125,16 +138,103 @@ def main(tier, seed):
         chk.job(job_wrapper, 'not:1x2', nvals=1, cap=2)
         chk.job(job_wrapper, 'not:keyword+1', nvals=2, cap=1, fixed=['and', 'or', '('])
         chk.job(job_callgraph, 'callgraph')
-        chk.bounds = dict(values='1 value <= 2 chars (all Unicode); a keyword-looking first value followed by a value <= 1 char')
+        chk.job(job_reserialise_lemma, 'lemma/re-serialiser', cap=5)
+        from .c01 import job_token_inductive, job_arglist_inductive
+        chk.job(job_token_inductive, 'lemma/scanner reads the rebuilt text back', N=24, C=12, part='C09')
+        chk.job(job_arglist_inductive, 'lemma/argument list', K=3, control_as_char=False, pid='C09')
+        chk.bounds = dict(lemma='re-serialiser: one argument-loop iteration from an arbitrary buffer, post-processing, text of a value <= 5 chars = rendering with only the backslash escaped (DESIGN.md 8.19)', values='1 value <= 2 chars (all Unicode); a keyword-looking first value followed by a value <= 1 char')
     else:
         chk.job(job_wrapper, 'not:1x3', nvals=1, cap=3)
         chk.job(job_wrapper, 'not:2x1', nvals=2, cap=1)
         chk.job(job_wrapper, 'not:1x2', nvals=1, cap=2)
         chk.job(job_wrapper, 'not:keyword+2', nvals=2, cap=2, fixed=['and', 'or', '(', ')', 'not', 'true', 'false', 'c'])
         chk.job(job_callgraph, 'callgraph')
-        chk.bounds = dict(values='1 value <= 3 chars, 2 values <= 1 char, keyword-looking first value + value <= 2 chars')
+        chk.job(job_reserialise_lemma, 'lemma/re-serialiser', cap=8)
+        from .c01 import job_token_inductive, job_arglist_inductive
+        chk.job(job_token_inductive, 'lemma/scanner reads the rebuilt text back', N=64, C=32, part='C09')
+        chk.job(job_arglist_inductive, 'lemma/argument list', K=6, control_as_char=False, pid='C09')
+        chk.bounds = dict(lemma='re-serialiser lemma with values <= 8 chars (DESIGN.md 8.19)', values='1 value <= 3 chars, 2 values <= 1 char, keyword-looking first value + value <= 2 chars')
     chk.assumptions = ['the wrapped command is a harness command registered as c that records its arguments',
                        'the not command is the executed wrapper; if/elseif/while/alias are checked to reach the command through the same utils::eval::parse (call graph on the current MIR)',
                        'open known-finding classes (listed in known_findings.json) are excluded from the main query and reported as KNOWN-FINDING while they reproduce']
     results = chk.run()
     return chk.finish(results, 'every obligation is a solver query over all argument values within the bounds and outside the open known-finding classes')
+
+
+# ---------------------------------------------------------------------- lemmas: values of any length
+def job_reserialise_lemma(ctx, jr, cap):
+    """utils::eval::parse, the re-serialiser all wrappers share: (1) one iteration of its argument loop from an arbitrary buffer;
+    (2) the post-processing of the buffer (line breaks dropped, backslashes doubled) and the hand-over to parse_text;
+    (3) the resulting text of one value is its rendering in the documented line syntax with only the backslash escaped - so the
+    scanner lemmas of C01 (DESIGN.md 8.6) apply cell by cell and the value comes back unchanged, whatever its length, unless it is in
+    one of the six listed classes."""
+    from mirsym import induct
+    from mirsym.models import str_concat, str_push, find_first, match_at
+    jr.bounds = dict(argument_chars=cap, buffer_so_far_chars=6, claim='per-argument lemma + string identity; composition with the C01 scanner lemmas argued in DESIGN.md 8.19')
+
+    def R(a):
+        """what the loop appends for the value a (without the trailing blank)"""
+        has_sp = contains_char(a, [SP])
+        quoted_both = zand(a.len >= 1, zeq(a.ch[0], DQ), zeq(sel(a.ch, a.len - 1, 0), DQ))
+        plain = merge(has_sp, str_push(str_concat(S(1, [DQ]), a), DQ), a)
+        esc = str_push(str_concat(S(1, [BS]), a), BS)
+        return merge(zeq(a.len, 0), mk_str('""'), merge(quoted_both, esc, plain))
+
+    def processed(t):
+        """line breaks dropped, every backslash doubled"""
+        out = S(0, [])
+        for i, c in enumerate(t.ch):
+            inside = simp(i < t.len)
+            if inside is False: break
+            keep = zand(inside, c != LF, c != CR)
+            one = str_push(out, c); two = str_push(str_push(out, BS), BS)
+            out = merge(zand(keep, zeq(c, BS)), two, merge(keep, one, out))
+            out = S(simp(out.len), out.ch)
+        return out
+    # ---- (1) + (2)
+    e = ctx.engine(unwind=3); t0 = time.time()
+    args = [H.sym_str(e, 'value%d' % i, cap) for i in range(2)]
+    calls = []
+    def h_parse(eng, st1, a, callee):
+        calls.append((st1.g, a[0] if isinstance(a[0], S) else eng.deref(st1, a[0])))
+        return E('std::result::Result', 1, {1: [E('types::error::ScriptError', 1, {1: [mk_str('stub')]})]})
+    e.hooks['duckscript::parser::parse_text'] = h_parse; e.hooks['parser::parse_text'] = h_parse
+    st = State(True, {})
+    fr = induct.capture(e, 'sdk', 'utils::eval::parse', [PV(V(2, args))], st)
+    fr.require(['line_buffer', 'iter'])
+    it0 = fr.get(fr.st, 'iter')
+    obs = [(fr.st.g, zand(zeq(fr.get(fr.st, 'line_buffer').len, 0), zeq(it0.f[1], 0)), 'entry: empty buffer, first argument')]
+    B = H.sym_str(e, 'buffer', 6); k = e.fresh_int('k', 0, 2)
+    st1 = fr.state(True, line_buffer=B, iter=T([it0.f[0], k] + list(it0.f[2:]), it0.ty))
+    exits, back = fr.step(st1)
+    goes_on = back.g if back is not None else False
+    a = merge(zeq(k, 0), args[0], args[1])
+    obs.append((True, zeq(goes_on, k < 2), 'one iteration per argument'))
+    if back is not None:
+        exp = str_push(str_concat(B, R(a)), SP)
+        obs.append((back.g, zand(str_eq(fr.get(back, 'line_buffer'), exp), zeq(fr.get(back, 'iter').f[1], k + 1)),
+                    'the buffer grows by the value as written ("" for the empty value, quotes around a value with a blank, backslashes around a value in quotes) and a blank'))
+    rets = fr.returns(exits)
+    for g_, txt in calls:
+        obs.append((g_, str_eq(txt, processed(B)), 'the text handed to the parser is the buffer with line breaks dropped and every backslash doubled'))
+    obs.append((zeq(k, 2), zor(*[g_ for g_, _ in calls]) if calls else False, 'after the last argument the text is parsed'))
+    for g, cnd, msg in obs: e.obligations.append(Obligation(g, cnd, 'C09 re-serialiser lemma: %s' % msg, 'assert', 'oracle'))
+    jr.symex_time += time.time() - t0
+    res = discharge_known(e, jr, PID, {}, lambda m, o=None: dict(kind='lemma', level='reserialise', values=[solve.model_str(m, x) for x in args]))
+    witness(jr, e, 're-serialiser lemma: a value in quotes', zand(goes_on, a.len >= 2, zeq(a.ch[0], DQ), zeq(sel(a.ch, a.len - 1, 0), DQ)), lambda m, o=None: dict(kind='lemma', level='reserialise'))
+    H.finish_job(jr, e, res)
+    # ---- (3) the text of one value = its rendering with only the backslash escaped (pure string identity, decided by the solver)
+    e = ctx.engine(unwind=3); t0 = time.time()
+    a = H.sym_str(e, 'value', cap)
+    e.assume(zand(a.len >= 1, znot(contains_char(a, [LF, CR, DQ]))))
+    has_sp = contains_char(a, [SP])
+    cells = S(0, [])
+    for i, c in enumerate(a.ch):
+        inside = simp(i < a.len)
+        cells = merge(zand(inside, zeq(c, BS)), str_push(str_push(cells, BS), BS), merge(inside, str_push(cells, c), cells)); cells = S(simp(cells.len), cells.ch)
+    want = merge(has_sp, str_push(str_concat(S(1, [DQ]), cells), DQ), cells)
+    got = processed(R(a))
+    e.obligations.append(Obligation(True, str_eq(got, want), 'C09 re-serialiser lemma: the text of a value (no line break, no quote) is the value with every backslash doubled, in quotes exactly when it contains a blank', 'assert', 'oracle'))
+    jr.symex_time += time.time() - t0
+    res = discharge_known(e, jr, PID, {}, lambda m, o=None: dict(kind='lemma', level='reserialise', values=[solve.model_str(m, a)]))
+    H.finish_job(jr, e, res)
